@@ -333,10 +333,21 @@ def popped(rec, e):
     return out
 
 
-def oracle_c01(rec, quiescent_complete=False):
+def oracle_c01(rec, quiescent_complete=False, started_complete=False):
     ''' Delivered = prefix of queued, byte-identical, in order; success only
-    after the receiver holds the bundle. '''
+    after the receiver holds the bundle. With started_complete (a run with
+    termination, driven to quiescence): every transfer whose first segment
+    was sent reaches the peer's receive queue. '''
     fails = []
+    if started_complete:
+        for (snd, rcv) in (('A', 'B'), ('B', 'A')):
+            started = [str(a[0]) for (n, a) in signals(rec, snd) if n == 'send_bundle_started']
+            refused = [str(a[0]) for (n, a) in signals(rec, snd) if n == 'send_bundle_finished' and str(a[2]).startswith('refused')]
+            rfin = [str(a[0]) for (n, a) in signals(rec, rcv) if n == 'recv_bundle_finished']
+            for bid in started:
+                if bid not in rfin and bid not in refused:
+                    fails.append(('C01 / transfer in progress when the session terminated never reached the peer',
+                                  '%s->%s id %s of %d queued' % (snd, rcv, bid, len(rec.queued[snd]))))
     for (snd, rcv) in (('A', 'B'), ('B', 'A')):
         queued = rec.queued[snd]
         fin = delivered(rec, rcv)
